@@ -238,9 +238,10 @@ PROPS = {
     },
     'C15': {
         'props_file': 'props/C15.v',
-        'domains': [{'name': 'loc-cronhooks', 'quick': 400, 'thorough': 20000, 'thorough_shards': 10}],
-        'spec_ops': ['addfact', 'addrule', 'remfact', 'remrule', 'enablerule', 'clear', 'reload', 'process', 'setparents'],
-        'corr': 'corr.loc (CorrLoc.check_loc) on the cronhooks profile: a recording cron.Cronner installed with cron.AddHooks on every state; per op the calls it received are compared with CronHooks.calls_* and the registry judge (registry = stored scheduled rules) runs after every op',
+        'domains': [{'name': 'loc-cronhooks', 'quick': 400, 'thorough': 20000, 'thorough_shards': 10},
+                    {'name': 'cron-sys', 'quick': 72, 'thorough': 1500, 'thorough_shards': 10}],
+        'spec_ops': ['addfact', 'addrule', 'remfact', 'remrule', 'enablerule', 'clear', 'reload', 'process', 'setparents', 'scheduled-rule-runs-once-in-its-location'],
+        'corr': 'corr.cronsys (CorrCronSys.check_cronsys: one sys.System with the real built-in cron, 2-3 locations sharing rule ids, one-shot schedules of 200/400 ms added/removed/replaced before they are due; runs counted per location) and corr.loc (CorrLoc.check_loc) on the cronhooks profile: a recording cron.Cronner installed with cron.AddHooks on every state; per op the calls it received are compared with CronHooks.calls_* and the registry judge (registry = stored scheduled rules) runs after every op',
         'rule': 'loc-cronhooks: histories of 20-45 ops on 1-2 locations (either state kind, persistent or ephemeral recording cron): AddRule with a schedule ("+1h", cron expressions, "!RFC3339") in 2 of 3 rule adds, '
                 'overwrites by rules with a when or by plain facts, deleteWith links to rule ids, RemRule/RemFact, Clear, reload (an ephemeral cron loses its jobs at reload), ticks delivered as trigger! events '
                 '(one-shot rules remove themselves); non-trivial = at least 3 distinct (op, outcome) kinds; distinct by hash of inputs',
@@ -248,10 +249,10 @@ PROPS = {
         'level_text': 'Coq theorems over the executable model of the cron hooks (cron/corehooks.go + where the two states invoke them): registry_exact_direct_ops (every history that avoids the known bypasses keeps the cron registry equal to the stored scheduled rules after every prefix; '
                       'tight: cstep_exact_iff_direct shows a bypassing operation always breaks it), load_reregisters_indexed. The bypasses themselves are proved as counterexamples (D28a-e, known finding). Tick delivery and one-shot removal are covered by the C04 model (trigger! path, oneshot_removed_after_run). '
                       'Tie to the code: a recording Cronner behind cron.AddHooks on real states; calls compared op by op with the model, registry judged after every op.',
-        'level_note': 'Partial: that the cron SERVICE fires a registered job when due is C16; here the claim is the registry. D17 (the built-in InternalCron is keyed by rule id only, so equal ids in two locations collide) is outside this harness (one recording Cronner per location) and is recorded in DESIGN.md. Expiry of scheduled rules is not judged (timing).',
+        'level_note': 'Partial: that the cron SERVICE fires a registered job when due is C16; here the claim is the registry. D17 (the built-in InternalCron was keyed by rule id only, so equal ids in two locations replaced each other\'s job) was found by reading, confirmed on the real code, repaired in /repo (fix: commit) and is guarded by the cron-sys domain. Expiry of scheduled rules is not judged (timing).',
         'technique': 'Coq invariant proof over instrumented operation histories with an exact characterisation of the bypassing operations + differential replay with a recording cron service',
         'assumptions': ['sequential histories', 'the cron service accepts every schedule string (the recording Cronner does)'],
-        'partial': 'firing of registered jobs is C16; D17 not exercised',
+        'partial': 'firing of registered jobs by the cron service itself is C16',
     },
 'C14': {
         'props_file': 'props/C14.v',
